@@ -130,6 +130,7 @@ def run(ctx: Ctx):
             from .C01 import mdcpdp_mask_classes
             mdcpdp_mask_classes(ctx, env, "tighter")
     wait_not_pruned_by_default(ctx)
+    mtsp_depot_column(ctx)
     old = T.BOOL_CELLS
     try:
         T.BOOL_CELLS = TS.BOOL_CELLS
@@ -219,6 +220,68 @@ def ffsp_idle_allowed(ctx: Ctx, sl, root):
            f"wait column {vg.show(wait, 4)[:110]} evaluates to {v} when every remaining job of the stage is available and the instance is unfinished" +
            ("" if ok else ": the offered machine MUST take a job, although machines are unrelated and a faster one may be offered next -- schedules that leave it idle (possibly all optimal ones) are not reachable"),
            construct="FFSPEnv._update_step_state:forced-dispatch")
+
+
+def mtsp_depot_column(ctx: Ctx):
+    """C05.j / C01.s mTSP depot column by truth table: the depot is offered iff (the vehicle is not at the depot AND another agent
+    remains) OR the instance is finished -- over the three flags (at depot, agents left, done), evaluated through the two
+    column stores of `_step`.  Both directions: an entry opened where the reference closes it admits a sub-tour too many or an
+    empty one (C01), an entry closed where the reference opens it hides every multi-agent solution (C05)."""
+    import itertools
+    from ..model import AnalysisError
+    env = EnvA(ctx.repo, T.ENVS["MTSPEnv"][0], "MTSPEnv")
+    sl = env.slot("_step")
+    root = sl.cell("action_mask")
+    col0 = lambda idx: isinstance(idx, vg.S) and idx.op == "tuple" and len(idx.args) == 2 and idx.args[0].op == "ellipsis" and vg.is_const(idx.args[1], 0)
+    top = nf.strip(root)
+    if not (top.op == "store" and col0(top.args[1])):
+        raise AnalysisError("MTSPEnv._step: the mask does not end with a store into the depot column")
+
+    def value_of(n, f, depth=0):
+        def assume(x):
+            y = nf.strip(x, True)
+            if y.op == "sub" and col0(y.args[1]) and nf.strip(y.args[0]).op == "store" and col0(nf.strip(y.args[0]).args[1]):
+                return value_of(nf.strip(y.args[0]).args[2], f, depth + 1)
+            c = nf.cmpnf(y)
+            if c is None:
+                return None
+            P, op = c
+            cells = set()
+            for a_ in P.atoms():
+                cells |= vg.cells_of(a_)
+            if cells == {"action"} and op in ("==0", "!=0") and P.const_term() == 0:
+                return f["at"] if op == "==0" else not f["at"]
+            if cells == {"agent_idx", "num_agents"}:
+                pos, neg = nf.sided_cells(P)
+                k = P.const_term()
+                if "num_agents" in pos and "agent_idx" in neg and ((op == ">0" and k == -1) or (op == ">=0" and k == -2)):
+                    return f["left"]
+                if "agent_idx" in pos and "num_agents" in neg and ((op == ">=0" and k == 1) or (op == ">0" and k == 2)):
+                    return not f["left"]
+                return None
+            if any(nf._fn(a_) == "torch.count_nonzero" or (a_.op == "meth" and a_.args[1] == "count_nonzero") for a_ in P.atoms()):
+                if op == "==0":
+                    return f["done"]
+                if op in ("!=0", ">0"):
+                    return not f["done"]
+            return None
+        return nf.kleene(n, assume) if depth < 6 else None
+
+    bad_open, bad_closed, undec = [], [], 0
+    for bits in itertools.product([False, True], repeat=3):
+        f = dict(zip(("at", "left", "done"), bits))
+        v = value_of(top.args[2], f)
+        ref = ((not f["at"]) and f["left"]) or f["done"]
+        tag = "".join(k[0] if f[k] else "-" for k in ("at", "left", "done"))
+        if v is None:
+            undec += 1
+        elif v and not ref:
+            bad_open.append(tag)
+        elif ref and not v:
+            bad_closed.append(tag)
+    ctx.ob("C05.j", "MTSPEnv.mask:depot-column", not bad_closed and not bad_open and undec == 0, sl.where,
+           f"depot offered iff (not at the depot & an agent is left) | done over 8 assignments of (at depot, agents left, done): opened against the reference {bad_open}, "
+           f"closed against the reference {bad_closed}, undetermined {undec}", construct="MTSPEnv._step:depot-column:truth-table")
 
 
 def run_thorough(ctx: Ctx):
